@@ -152,6 +152,16 @@ def cases(tier, seed):
             la = [None] * nlev
             la[lv] = lay
             out.append({"kind": "layout", "geo": geo, "la": la, "lb": list(la), "seed": seed, "sels": [0, 2], "forms": False})
+    # binary file numbers of different widths (Cell_D_99999 / Cell_D_100000 / Cell_D_10000): same layout on both sides (by-file
+    # mode) and another layout on the second side (box-by-box mode)
+    for first in (0, 1):
+        for lay in (L_id[-1], L_id[5], L_id[7]):
+            wl = scope.wide_numbers(lay, first)
+            for lv in range(nlev):
+                la = [None] * nlev
+                la[lv] = wl
+                for lb in (list(la), [L_id[7] if l_ is not None else None for l_ in la], [scope.wide_numbers(L_id[-1], 1 - first) if l_ is not None else None for l_ in la]):
+                    out.append({"kind": "layout", "geo": geo, "la": la, "lb": lb, "seed": seed, "sels": [0, 2], "forms": False})
     # field names with a blank or a comma, selected through LISTS of names
     out.append({"kind": "blank_names", "geo": geo, "seed": seed, "w": 2})
     # the first input opened with a level limit below its finest level, the second a plotfile of exactly those levels
@@ -378,6 +388,10 @@ def run_case(case, workdir):
                     o = os.path.join(workdir, "out_h%d" % k2)
                     fn(p1, p2, pltout=o, vars2=[["Z"], ["Zvar"], None][k2])
                     outs.append(o)
+                # ... and then the two readers change roles (the reader that was the second input three times is the first now)
+                o = os.path.join(workdir, "out_h3")
+                fn(p2, p1, pltout=o)
+                outs.append(o)
                 return outs
             st, val = call(hist)
         rec.exe([dh, "history"], nontrivial=True, trans=3)
@@ -387,8 +401,8 @@ def run_case(case, workdir):
             for k2, o in enumerate(val):
                 pp = oracle.parse_output(rec, {"history_step": k2}, o)
                 if pp is not None:
-                    oracle.compare_contents(rec, {"history": "three combines with one reader object as first input", "step": k2}, pp,
-                                            ra.combine(rb, None, [["Z"], ["Zvar"], None][k2]), prefix="history_")
+                    oracle.compare_contents(rec, {"history": "three combines with one reader object as first input, then the readers change roles", "step": k2}, pp,
+                                            ra.combine(rb, None, [["Z"], ["Zvar"], None][k2]) if k2 < 3 else rb.combine(ra, None, None), prefix="history_")
                     oracle.taste_accepts(rec, {"history_step": k2}, o)
         import amr_kitchen.combine.cli as ccli
         from ..common import run_cli
